@@ -36,6 +36,9 @@ OPTS = {
     "spacers": {"spacer": "  ", "lhs_spacer": "", "len_numeric_field": -1},
     "v12wrap": {"version": 1.2, "wrap": True, "data_width": 40},
     "tabspacer": {"spacer": "\t", "wrap": False},
+    # the index column printed finer than the other columns: STRT/STOP/STEP must follow the index column's format
+    "idxfine": {"fmt": "%.1f", "column_fmt": {0: "%.3f"}},
+    "idxfine_d": {"fmt": "%d", "column_fmt": {0: "%.4f"}, "wrap": False},
 }
 
 
